@@ -64,6 +64,11 @@ class WidthEnv:
                 v = st.value
             elif dn.kind == "stmt" and isinstance(st, ast.AnnAssign) and st.value is not None and norm(st.target) == name:
                 v = st.value
+            elif dn.kind == "stmt" and isinstance(st, ast.Assign) and len(st.targets) == 1 and isinstance(st.targets[0], ast.Tuple) and isinstance(st.value, ast.Tuple) and len(st.targets[0].elts) == len(st.value.elts):
+                # a, b = x, y  (elementwise; no target is read on the right-hand side)
+                tn = [t.id for t in st.targets[0].elts if isinstance(t, ast.Name)]
+                if len(tn) == len(st.value.elts) and name in tn and not any(isinstance(x, ast.Name) and x.id in tn for e_ in st.value.elts for x in ast.walk(e_)):
+                    v = st.value.elts[tn.index(name)]
             out.append((v, d))
         return out
 
@@ -153,8 +158,54 @@ class WidthEnv:
             return None
         return None
 
-    def ub_form(self, form: Lin) -> Optional[int]:
+    def _ub_candidates(self, v: ast.AST, d: int, depth: int = 0) -> List[Lin]:
+        """linear forms F with v <= F (exact value forms, and for min(..) the forms of each argument)"""
+        if depth > 6 or v is None:
+            return []
+        if isinstance(v, ast.Call) and call_name(v) == "min" and v.args:
+            out: List[Lin] = []
+            for a in v.args:
+                out += self._ub_candidates(a, d, depth + 1)
+            return out
+        if isinstance(v, ast.IfExp):
+            a, b = self._ub_candidates(v.body, d, depth + 1), self._ub_candidates(v.orelse, d, depth + 1)
+            return [x for x in a if any(lin_eq(x, y) for y in b)]
+        if isinstance(v, ast.Name):
+            ds = self.defs(v.id, d)
+            if len(ds) == 1 and ds[0][0] is not None:
+                return self._ub_candidates(ds[0][0], ds[0][1], depth + 1)
+        if isinstance(v, (ast.BinOp, ast.Name, ast.Attribute, ast.Constant)):
+            return [self.val(v, d)]
+        return []
+
+    def ub_form(self, form: Lin, _depth: int = 0) -> Optional[int]:
         """Upper bound (relative to W) of a linear form whose atoms were produced by `val`."""
+        r = self._ub_form_numeric(form)
+        if r is not None or _depth > 3:
+            return r
+        # an atom that is defined on several paths (if / else) by values with one common linear upper bound - e.g.
+        # child_width = available | min(child_maximum, available) with available = W - left - right - is replaced by that bound
+        for a, c in form.items():
+            if a in ("", self.W) or c <= 0 or a not in self.atom_defs:
+                continue
+            cands = None
+            for v, d in self.atom_defs[a]:
+                cs = self._ub_candidates(v, d)
+                cands = cs if cands is None else [x for x in cands if any(lin_eq(x, y) for y in cs)]
+            for bound in cands or []:
+                if a in bound:
+                    continue
+                new = {k: v_ for k, v_ in form.items() if k != a}
+                for k, v_ in bound.items():
+                    new[k] = new.get(k, 0) + c * v_
+                    if new[k] == 0:
+                        del new[k]
+                r = self.ub_form(new, _depth + 1)
+                if r is not None:
+                    return r
+        return None
+
+    def _ub_form_numeric(self, form: Lin) -> Optional[int]:
         total = form.get("", 0)
         sawW = 0
         for a, c in form.items():
